@@ -168,8 +168,33 @@ STRENGTHENED = {
     "C19-12": "a module that forgets an input; added before the first evaluation",
     "C20-11": "header numbers written with full precision (format specification of the symbolic token, generic-value probe); added before the first evaluation",
     "C20-12": "csv extension in upper / mixed case; added before the first evaluation",
+    # ---- round 7
+    "C01-14": "assembly with a complex scaling vector (logical dtypes); added from the seeder's report before the first evaluation",
+    "C03-13": "SystemOfEquations template with a symmetric free-free block and independent coupling blocks (A_pf != A_fp^T)",
+    "C04-13": "Scaling in objective mode with an array-valued (mutable) state; added before the first evaluation",
+    "C04-14": "C04's modules take whole signals; caught by C18 (second add through an index-array slice)",
+    "C05-13": "concrete CG items with complex-dependent block columns (symbolic block CG does not finish); added before the first evaluation",
+    "C05-14": "sparse LU re-updated with the SAME matrix object after its values were changed in place",
+    "C06-13": "auto-detected class flags on structured complex matrices (Hermitian coupled block, decoupled dof with a non-real diagonal)",
+    "C08-13": "a 3-D mesh with several elements in y and z (C13's connectivity tables caught it as registered)",
+    "C10-14": "clauses: the constants a0, a, c, d of the sub-problem reach subsolv in their own argument slots",
+    "C11-14": "spectrum with a complex pair AND a real eigenvalue (n = 3); added before the first evaluation",
+    "C13-13": "tables handed out belong to the caller (modified in place, then queried again); added before the first evaluation",
+    "C13-14": "derivative and shape functions from one point array, point argument unchanged; added before the first evaluation",
+    "C14-13": "the eps keyword of the constructor, zero included (the forward items set eps through the attribute)",
+    "C15-13": "zeroing through slices that have a step but no start/stop; added before the first evaluation",
+    "C16-13": "damped scaling with a varying number of values; added before the first evaluation",
+    "C19-13": "sensitivities left on the inputs before finite_difference is called; added before the first evaluation",
+    "C19-14": "a network input consumed through a slice of a slice; added before the first evaluation",
 }
 NOT_CAUGHT = {
+    "C02-14": "outside the claim: user-defined sensitivity objects with their own add_sensitivity() hook (listed in OUTSIDE of C02/C18)",
+    "C06-14": "not caught: needs scipy-sparse matrices inside LDAWrapper histories (same shape and nnz, a dof decoupled by explicitly "
+              "stored zeros in the first matrix only); the C06 histories use dense matrices",
+    "C07-14": "outside the claim: the unused option dep_tol wired to the wrapper's residual tolerance (1e-7 -> 1e-5): a statement about "
+              "tolerances, A x = b still holds to the looser one",
+    "C09-14": "outside the claim: the kernel array is stored by reference and the CALLER changes it later (the library itself does not "
+              "modify it); also not confirmed - the suite run lost a flaky test",
     "C10-3": "outside the claim: the fault needs integer-typed design vectors (np.concatenate keeps int64, np.zeros_like then truncates "
              "fractional bounds); object arrays carry no integer/float distinction and the logical-dtype mode only tracks real/complex",
     "C01-5": "not confirmed: z3 finds the dropped dyads (norm < 1e-12), but at that magnitude the finite-difference replay cannot tell "
